@@ -352,7 +352,11 @@ func (self Value) Interface(opts *Options) (interface{}, error) {
 		return self.binary()
 	case proto.STRING:
 		if opts.CastStringAsBinary {
-			return self.binary()
+			s, err := self.string()
+			if err != nil {
+				return nil, err
+			}
+			return []byte(s), nil
 		}
 		return self.string()
 	case proto.ENUM:
